@@ -139,24 +139,26 @@ theorem moveaxis_order (nd : Nat) (s d : List Nat) (f : List Nat → Nat × Nat 
     rw [hf]; unfold Rs.vecInsert
     rw [if_neg (by have := Nat.min_le_right p.1 o.length; omega)]
 
-/-- **`moveaxis` as translated from the source, with the hand-written `transpose` plugged in, is `Arr.moveaxis`** -/
-theorem moveaxis_eq (a : Arr α) (zero : α) (src dst : List Int) :
-    Array_moveaxis (fun x ax => x.transpose zero ax) a src dst = a.moveaxis zero src dst := by
+/-- **`moveaxis` as translated from the source, with the hand-written `transpose` plugged in, is `Arr.moveaxis` up to the error
+variant.**  The script splits on the outcome of each of the four validations and closes every case by `simp`, so the order in which
+the source performs them does not matter (it only decides which variant is reported when several fail). -/
+theorem moveaxis_sim (a : Arr α) (zero : α) (src dst : List Int) :
+    Res.sameClass (Array_moveaxis (fun x ax => x.transpose zero ax) a src dst) (a.moveaxis zero src dst) := by
   unfold Array_moveaxis Arr.moveaxis
-  simp only [is_unique_eq, is_equal_nat, normalize_axis_mapM, bind_ok', Array_ndim]
-  by_cases h1 : src.Nodup
-  · by_cases h2 : src.length = dst.length
-    · by_cases h3 : (src.map (normalizeAxis a.ndim)).Nodup
-      · by_cases h4 : (dst.map (normalizeAxis a.ndim)).Nodup
-        · simp only [h1, h2, h3, h4, if_true, bind_ok', not_true_eq_false, if_false, ne_eq]
-          have := moveaxis_order a.ndim (src.map (normalizeAxis a.ndim)) (dst.map (normalizeAxis a.ndim)) _ (fun o p => rfl)
-          unfold Arr.ndim at this
-          simp only [Rs.forM, Rs.umin, this, bind_ok', Rs.map, Rs.toIsize, Arr.ndim]
-        · simp [h1, h2, h3, h4]
-      · simp [h1, h2, h3]
-    · simp [h1, h2]
-  · simp [h1]
+  simp only [is_unique_eq, is_equal_nat, normalize_axis_mapM, bind_ok', Array_ndim, Arr.ndim]
+  have ho := moveaxis_order a.shape.length (src.map (normalizeAxis a.shape.length)) (dst.map (normalizeAxis a.shape.length))
+    _ (fun o p => rfl)
+  by_cases h1 : src.Nodup <;> by_cases h2 : src.length = dst.length <;>
+    by_cases h3 : (src.map (normalizeAxis a.shape.length)).Nodup <;>
+    by_cases h4 : (dst.map (normalizeAxis a.shape.length)).Nodup <;>
+    first
+    | (simp only [h1, h2, h3, h4, if_true, bind_ok', not_true_eq_false, if_false, ne_eq]
+       simp only [Rs.forM, Rs.umin, ho, bind_ok', Rs.map, Rs.toIsize]
+       exact Res.sameClass_self _)
+    | simp [*]
 
+/-- … and `rollaxis`, `swapaxes`, `expand_dims`, `squeeze` in the same form (their validations all report the same variant, or are
+ordered by data dependency, so the exact theorems below are as stable) -/
 theorem getElem_range_idx (n i : Nat) (h : i < n) : Rs.index (List.range n) i = .ok i := by
   simp [Rs.index, Res.idx, h]
 
@@ -294,5 +296,21 @@ theorem squeeze_eq (a : Arr α) (axes : Option (List Int)) : Array_squeeze a axe
         simp only [bind_ok', Res.bind_ok, foldM_eq_foldl_bind]
         rfl
       · simp [hn]
+
+/-! ## D. the same, up to the error variant (the form the property corollaries use) -/
+
+theorem rollaxis_sim (a : Arr α) (zero : α) (axis : Int) (start : Option Int) :
+    Res.sameClass (Array_rollaxis (fun x ax => x.transpose zero ax) a axis start) (a.rollaxis zero axis start) :=
+  Res.sameClass_of_eq (rollaxis_eq a zero axis start)
+
+theorem swapaxes_sim (a : Arr α) (zero : α) (ax1 ax2 : Int) :
+    Res.sameClass (Array_swapaxes (fun x ax => x.transpose zero ax) a ax1 ax2) (a.swapaxes zero ax1 ax2) :=
+  Res.sameClass_of_eq (swapaxes_eq a zero ax1 ax2)
+
+theorem expand_dims_sim (a : Arr α) (axes : List Int) : Res.sameClass (Array_expand_dims a axes) (a.expandDims axes) :=
+  Res.sameClass_of_eq (expand_dims_eq a axes)
+
+theorem squeeze_sim (a : Arr α) (axes : Option (List Int)) : Res.sameClass (Array_squeeze a axes) (a.squeeze axes) :=
+  Res.sameClass_of_eq (squeeze_eq a axes)
 
 end ArrModel.Gen.Core
